@@ -376,6 +376,20 @@ func c06Config(r *mon.Run, cfg c06cfg, jr *rand.Rand, idx int) {
 			r.Eval(family, "reject")
 			if honest {
 				r.Violation("C06/honest-run-fails", fmt.Sprintf("ConstructCredential rejects the honest message: %v (%s)", err, cfg), map[string]any{"config": cfg.String(), "message": dumpISM(msg)})
+				return
+			}
+			// the holder retries with the very same message object: what was refused stays refused
+			for attempt := 2; attempt <= 3; attempt++ {
+				var c2 *gabi.Credential
+				var e2 error
+				pv2, _ := mon.Try(func() { c2, e2 = h.run.Builder.ConstructCredential(m, cloneInts(attrs)) })
+				r.Eval(family+"/retry", outcome(pv2 == nil && e2 == nil && c2 != nil, pv2))
+				if pv2 == nil && e2 == nil && c2 != nil {
+					_, why := c06RefChecks(h, m, given, c2)
+					r.Violation("C06/refused-message-accepted-on-retry/"+strings.SplitN(desc, " ", 2)[0], fmt.Sprintf("ConstructCredential refused the message (%v) and produces a credential from the same message object on attempt %d (%s; reference: %s; %s)", err, attempt, desc, why, cfg),
+						map[string]any{"config": cfg.String(), "fault": desc, "delivered": dumpISMSafe(m), "attempt": attempt})
+					break
+				}
 			}
 			return
 		}
@@ -470,6 +484,15 @@ func c06Config(r *mon.Run, cfg c06cfg, jr *rand.Rand, idx int) {
 				acc := *h.rev.Accs[0]
 				s, _ := acc.Sign(fk.SK)
 				m.NonRevocationWitness.SignedAccumulator = cloneSAcc(s)
+			}},
+			fault{"witness forged-consistent (free u, nu=u^e, signed by a foreign key)", func(m *gabi.IssueSignatureMessage) {
+				fk := world.Fixture("toy512b")
+				w := m.NonRevocationWitness
+				w.U = new(big.Int).Exp(bi(3), bi(65537), pk.N)
+				acc := *h.rev.Accs[0]
+				acc.Nu = new(big.Int).Exp(w.U, w.E, pk.N)
+				s, _ := acc.Sign(fk.SK)
+				w.SignedAccumulator = cloneSAcc(s)
 			}},
 			fault{"witness dropped", func(m *gabi.IssueSignatureMessage) { m.NonRevocationWitness = nil }},
 			fault{"witness.u missing", func(m *gabi.IssueSignatureMessage) { m.NonRevocationWitness.U = nil }},
